@@ -19,7 +19,7 @@ FUNCTIONS = ["MetricFetcher._fetch_next / fetch_next / fetch_next_with_fallback 
              "FormulaEvaluator.apply", "FormulaEngine._run", "FallbackMetricFetcher (real base class: receive/ready/consume protocol)"]
 SHIMS = fx.SHIMS + ["the fallback is a fake FallbackMetricFetcher subclass whose start() opens a new receiver on a Broadcast channel fed by the harness "
                     "(stands for FallbackFormulaMetricFetcher's lazily started formula engine: it only sees samples sent after start())",
-                    "wall-clock guard of 20 s per event-loop run: a loop that spins without blocking is reported as 'livelock'"]
+                    "guard of 200 000 event-loop iterations per run: a loop that spins without ever blocking is reported as 'livelock'"]
 ASSUMPTIONS = [
     "both streams carry one sample per timestamp T0 + k*1s (as produced by one resampler); per round the order 'fallback sample first' / 'primary sample first' is symbolic",
     "validity of every primary and fallback sample is symbolic (missing = None); valid values are symbolic reals",
